@@ -17,7 +17,7 @@ class Contract:
                  raises=None, raises_ensures=None, modifies=(), loops=None, inline=False,
                  trusted=False, prop=None, closure=None, note="", param_names=None,
                  allow_any_raise=False, replay=None, cases=None, ghost_params=None, frame=None,
-                 decreases=None):
+                 decreases=None, raise_modifies=()):
         self.key = key
         self.params = dict(params or {})
         self.self_model = self_model
@@ -31,6 +31,7 @@ class Contract:
         self.raises_ensures = {k: [self._p(x) for x in v] for k, v in (raises_ensures or {}).items()}
         self.raises_ensures_src = dict(raises_ensures or {})
         self.modifies = list(modifies)
+        self.raise_modifies = list(raise_modifies)
         self.loops = {}
         for o, sp in (loops or {}).items():
             sp = dict(sp)
@@ -71,6 +72,19 @@ class Registry:
         self.tables = []  # (prop, name, callable) finite-domain obligations
         self.lemmas = []  # (prop, name, callable(z3) -> (assumptions, goal))
         self.statics = []  # (prop, name, callable) static AST obligations
+        self.stub_src = {}
+
+    def stub(self, key, source):
+        """trusted stub for a foreign (C-implemented) method, given as Python source that the
+        executor runs symbolically; listed in the evidence as an assumption"""
+        import ast as _ast
+        fn = _ast.parse(source).body[0]
+        self.stub_src[key] = source
+
+        def impl(interp, args, kwargs, node, fn=fn):
+            f = VFunc(fn, None, None, "stub:" + key)
+            return interp.run_body(f, args, kwargs, node)
+        self.overrides[key] = impl
 
     def contract(self, key, **kw):
         c = Contract(key, **kw)
